@@ -577,7 +577,10 @@ def main():
                     reproduced = True
                     src_b = 'native:' + nm
                     inputs = nat_cex
-        n0, d0 = (rtop or remaining)[0]
+        # the named obligation: prefer a contract assertion (postcondition / stub precondition) over a derived safety check
+        cand = (rtop or remaining)
+        cand = sorted(cand, key=lambda x: (0 if '.assertion.' in x[0] and not AUX_DESC_RE.search(x[1]) else 1 if '.assertion.' in x[0] else 2))
+        n0, d0 = cand[0]
         oname = '%s/%s/%s' % (pid, r.proof.name, n0)
         data = dict(property=pid, obligation=oname, description=d0, proof=r.proof.name, proof_kind=r.proof.kind,
                     failed_obligations=['[%s] %s' % x for x in remaining][:60], native=rn,
